@@ -291,7 +291,8 @@ Definition mismatches_C11 (cs : list case_C11) : list N := indices_where mismatc
 Definition violations_C11 (cs : list case_C11) : list N := indices_where violation_C11 cs.
 
 (* known-finding classifier over the INPUT (scenario + probe); idx*100 + tag *)
-(* tag 3 (tags 1 and 2 are retired: repaired in /repo): Project.clone under a DOUBLE fault — a failure
+(* tag 3 (tags 1, 2 and 4 are retired: repaired in /repo; 4 = 8529336, the handle keeping a state point
+   rejected by an I/O error at the parking of the state point file): Project.clone under a DOUBLE fault — a failure
    while copying AND a failure of a clean-up unlink / rmdir below the destination (shutil.rmtree with
    ignore_errors) — leaves a partial destination that may validate *)
 Definition known_tag_C11 (c : case_C11) : N :=
@@ -300,11 +301,6 @@ Definition known_tag_C11 (c : case_C11) : N :=
       let d := dst_dir (frepr_of c) (k_op c) (k_pre c) in
       let cleanup (s : csig) := (ckind_eqb (sg_kind s) SgUnlink || ckind_eqb (sg_kind s) SgRmdir) && under d (sg_p s) in
       if negb (cleanup s1) && (under d (sg_p s1) || under (ws ++ [i]) (sg_p s1)) && cleanup s2 then 3 else 0
-  (* tag 4: a re-key whose FIRST rename (state point file -> backup) fails keeps the rejected state point in
-     the handle's memory; a later state point change through the same handle applies it too *)
-  | KRekey ws i _, PFollow s _ _ (Some _) _ (FSet _ _) _ _ =>
-      if ckind_eqb (sg_kind s) SgRename && path_eqb (sg_p s) (ws ++ [i; SPF]) && path_eqb (sg_q s) (ws ++ [i; SPT])
-      then 4 else 0
   | _, _ => 0
   end%N.
 
